@@ -1,0 +1,66 @@
+//
+// Verification hooks (only built with the cargo feature `penne_verif`).
+//
+// A thread-local recorder of JSON lines. Hook sites call `emit` after the
+// state change they describe; a harness calls `start` before driving the
+// code under test and `take` afterwards. When recording is off (the default)
+// `emit` does nothing.
+//
+
+use std::cell::RefCell;
+
+thread_local! {
+	static EVENTS: RefCell<Option<Vec<String>>> = const { RefCell::new(None) };
+}
+
+/// Start recording on this thread, discarding anything recorded before.
+pub fn start()
+{
+	EVENTS.with(|x| *x.borrow_mut() = Some(Vec::new()));
+}
+
+/// Stop recording on this thread and return the recorded lines.
+pub fn take() -> Vec<String>
+{
+	EVENTS.with(|x| x.borrow_mut().take().unwrap_or_default())
+}
+
+/// Is recording on for this thread?
+pub fn is_on() -> bool
+{
+	EVENTS.with(|x| x.borrow().is_some())
+}
+
+/// Record one event (a complete JSON object, without trailing newline).
+pub fn emit(line: String)
+{
+	EVENTS.with(|x| {
+		if let Some(events) = x.borrow_mut().as_mut()
+		{
+			events.push(line);
+		}
+	});
+}
+
+/// Escape a string for inclusion in a JSON string literal.
+pub fn esc(s: &str) -> String
+{
+	let mut out = String::with_capacity(s.len() + 2);
+	for c in s.chars()
+	{
+		match c
+		{
+			'"' => out.push_str("\\\""),
+			'\\' => out.push_str("\\\\"),
+			'\n' => out.push_str("\\n"),
+			'\r' => out.push_str("\\r"),
+			'\t' => out.push_str("\\t"),
+			c if (c as u32) < 0x20 =>
+			{
+				out.push_str(&format!("\\u{:04x}", c as u32))
+			}
+			c => out.push(c),
+		}
+	}
+	out
+}
